@@ -26,6 +26,7 @@ CHECKS = {
         native(),
         tsan(args={"all": {"part": "concurrent"}}),
     ]},
+    "C06": {"crate": "h_engines", "bin": "c06", "level": "exploration", "legs": [native()]},
     "C07": {"crate": "h_store", "bin": "c07", "level": "exploration", "legs": [
         native(),
         script("strace-kill", "legs_c07", "strace_leg"),
